@@ -15,6 +15,8 @@ def run(ctx):
     ctx.rule("C14.2", "v4 <-> A / Ipv4, v6 <-> AAAA / Ipv6 in every converter")
     ctx.rule("C14.3", "transitions: non-ASCII -> error, '%' while reading the address abandons the line, address/name parse failure -> error, names relative to the root")
     ctx.rule("C14.4", "serialiser: one line per present family per name, address then name")
+    ctx.rule("C14.6", "the conversion tools treat a parse error as an error: from the Err edge of the parser's result the program cannot return normally (it exits with a non-zero status)")
+    ctx.rule("C14.7", "Hosts::merge / Hosts::deserialise keep one map per family and only ever insert into the map of the entry's own family (C12.4, decided here as well)")
     ctx.rule("C14.5", "conversions: one record per mapping with hosts::TTL; TryFrom<Zone> rejects wildcards and other types; the tools call the documented pairs")
     ctx.decline("hosts(5) reading of arbitrary text (value property)")
 
@@ -320,6 +322,12 @@ def run(ctx):
     ctx.check(any("TryFrom<dns_types::zones::types::Zone>" in n_ or n_.endswith("TryInto<U>>::try_into") or n_.endswith("try_from") for n_ in zt) and any(n_.endswith("Hosts::from_zone_lossy") for n_ in zt),
               "C14.5", "tool:ztoh:modes", "strict (try_from) and lossy conversion both available", "ztoh conversions: %s" % [n_ for n_ in zt if "Hosts" in n_], prog.fn("ztoh::main").loc())
 
+    tool_exit_rules(ctx)
+    # replacement is per name *and* family also across merged hosts files (C12.4, decided here as well)
+    from ..core import RuleAlias
+    if not isinstance(ctx, RuleAlias):
+        from . import C12
+        C12.run(RuleAlias(ctx, {"C12.4": "C14.7"}))
 
 def _dest_family(fn, op):
     """which Hosts map (`v4` / `v6`) a `&mut map` argument refers to: a field of a Hosts value (`hosts.v4`), or a
@@ -364,3 +372,21 @@ def _root_name(fn, op):
         rv = fn.blocks[sd[0]]["stmts"][sd[1]]["rv"]
         p = rv.get("place") if rv["k"] == "ref" else A.op_place(rv.get("op", {}))
     return None
+
+
+def tool_exit_rules(ctx):
+    prog = ctx.prog
+    # ---------------------------------------------------------------- C14.6
+    for key in ("htoz::main", "htoh::main", "ztoh::main"):
+        m_ = prog.fn(key)
+        mr_ = A.Resolver(m_)
+        mc_ = A.Conds(m_, mr_)
+        err_edges = mc_.edges_where(lambda fc: fc[0] == "is" and fc[1] == "Err")
+        rets_ = set(A.returns(m_))
+        exits_ = {}
+        for b, t in A.call_blocks(m_, A.name_is("std::process::exit")):
+            exits_[b] = A.peel(mr_.call_expr(t, b)[2][0])
+        leaks = [(a, s_) for a, s_ in err_edges if rets_ & set(m_.reachable(s_, removed_blocks=list(exits_)))]
+        nonzero = all(v[0] == "const" and v[2] not in (0, None) for v in exits_.values())
+        ctx.check(bool(err_edges) and not leaks and nonzero and bool(exits_), "C14.6", "%s:error-exits" % key, "every failure ends in process::exit(non-zero)",
+                  "%s can finish normally after an error (%s)" % (key, [m_.loc(a) for a, s_ in leaks]), m_.loc(leaks[0][0]) if leaks else m_.loc())
